@@ -157,7 +157,7 @@ def tlc_stage(rep):
     if not quick:
         for i in range(1, 6):
             jobs.append(('exhT{}'.format(i), '<< ThoroughFamilies[{}] >>'.format(i), {}, dict(workers=4, coverage=False, timeout=2400)))
-    for i in range(1, 7):
+    for i in range(1, 8):
         jobs.append(('exh{}'.format(i), '<< QuickFamilies[{}] >>'.format(i), {}, dict(workers=2, coverage=not quick, timeout=900 if quick else 2400)))
     jobs.append(('cov', 'CovFamilies', {}, dict(workers=2, coverage=True, timeout=900 if quick else 2400)))
     # 2. deeper behaviours by simulation (a fixed number of behaviours: reproducible for a given seed)
